@@ -601,3 +601,98 @@ Definition run (cs : list case) : list (N * N * N) :=
     (fun c => i_free (c_in c) || obs_eqb (model (c_in c)) (c_obs c))
     (fun c => spec_ok (c_in c) (c_obs c))
     (fun _ => 0%N) cs.
+
+(* ---------- Part 3: API-level histories of ARBITRARY runs of Part 1 ----------
+   Used only by the theorem that the oracle above accepts every free-running history the
+   semantics can produce (C14_free_runs_meet_oracle); not used by [run].
+
+   A run of Part 1 is decorated with the API-level events a free-running case records
+   (AStart / ARet / ABeg / AEnd, taken from a global clock before each call and after each
+   return).  The decoration may be placed anywhere the real calls allow:
+     AStart w  at any time before the writer's temporary file exists,
+     ARet w true   at any time after its rename,   ARet w false  at any time after its failure,
+     ABeg r u  at any time before reader r opens (u is the URL it will open),
+     AEnd r    at any time after the read completed;
+   a killed writer never returns.  [xguard] is exactly this discipline (plus: every writer
+   is one of the case's table, and no in-place writer). *)
+Inductive xev := XE (e : event) | XA (a : sev).
+
+Definition declared_b (i : input) (e : event) : bool :=
+  match e with
+  | ECreate w u c _ =>
+      match getN w (i_writers i) with
+      | Some (u', b) => String.eqb u u' && list_eqb Ascii.eqb c (dat_of b)
+      | None => false
+      end
+  | _ => true
+  end.
+
+Definition xguard (i : input) (s : state) (m : mon) (x : xev) : bool :=
+  match x with
+  | XE e =>
+      safe e && declared_b i e &&
+      match e with
+      | ECreate w _ _ _ => memN w (n_started m)
+      | EOpen r u => match getN r (n_open m) with Some (u', _) => String.eqb u u' | None => false end
+      | _ => true
+      end
+  | XA (AStart w) => match getN w (s_w s) with None => true | Some _ => false end
+  | XA (ARet w ok) =>
+      match getN w (s_w s) with
+      | Some wr => wpc_eqb (w_pc wr) (if ok then PDone else PFailed)
+      | None => false
+      end
+  | XA (ABeg r _) =>
+      match getN r (s_r s), getN r (n_open m) with None, None => true | _, _ => false end
+  | XA (AEnd r) =>
+      match getN r (s_r s) with
+      | Some rr => match r_st rr with RDone _ => true | RReading _ => false end
+      | None => false
+      end
+  | XA _ => false
+  end.
+
+(* the monitor state after an API event (the verdict bit and the reads play no role in it) *)
+Definition mon_next (i : input) (m : mon) (a : sev) : mon := fst (mon_step i [] (m, true) a).
+
+Fixpoint xexec (i : input) (s : state) (m : mon) (xs : list xev) : option (state * mon) :=
+  match xs with
+  | [] => Some (s, m)
+  | x :: xs' =>
+      if xguard i s m x then
+        match x with
+        | XE e => match step (sha_of (i_sha i)) s e with Some s' => xexec i s' m xs' | None => None end
+        | XA a => xexec i s (mon_next i m a) xs'
+        end
+      else None
+  end.
+
+(* the recorded history and the underlying run *)
+Fixpoint api_of (xs : list xev) : list sev :=
+  match xs with [] => [] | XA a :: xs' => a :: api_of xs' | XE _ :: xs' => api_of xs' end.
+Fixpoint run_of (xs : list xev) : list event :=
+  match xs with [] => [] | XE e :: xs' => e :: run_of xs' | XA _ :: xs' => run_of xs' end.
+
+(* what the case records: the completed reads of the final state ... *)
+Definition readrecs (s : state) : list readrec :=
+  flat_map (fun rrr : N * rrec =>
+    match r_st (snd rrr) with
+    | RDone Miss => [(fst rrr, r_url (snd rrr), OMiss)]
+    | RDone (Hit c) => [(fst rrr, r_url (snd rrr), OHit (str_of c))]
+    | RReading _ => []
+    end) (s_r s).
+
+(* ... as a free-running case of the writers of i with history xs *)
+Definition free_input (i : input) (xs : list xev) : input :=
+  mk_input true (i_sha i) (i_writers i) (i_tmps i) (api_of xs).
+Definition free_obs (s : state) : obs := mk_obs [] (readrecs s) (listing s).
+
+(* the least decoration of a run: every Set is seen to start just before its temporary
+   file is created and every Get just before it opens; nothing is seen to return *)
+Fixpoint decorate (tr : list event) : list xev :=
+  match tr with
+  | [] => []
+  | ECreate w u c t :: tr' => XA (AStart w) :: XE (ECreate w u c t) :: decorate tr'
+  | EOpen r u :: tr' => XA (ABeg r u) :: XE (EOpen r u) :: decorate tr'
+  | e :: tr' => XE e :: decorate tr'
+  end.
